@@ -21,6 +21,8 @@ CLAIMED["C09"] = ("other", "Chain invariants as structure: header provenance of 
   "origin rendering of headers, path enumeration with phi resolution for the retention formula, who-may-call tables, CFG rules over go/ssa")
 CLAIMED["C04"] = ("other", "The from-scratch checksum is a function of file bytes (not statically computable); decided instead: the incremental cache is updated wherever database bytes change and only consistently - enumerated file write/truncate sites vs table, page write => checksum update with the same arguments, truncate => reset, ownership of the cache fields, unconditional block-cache clear, lock page = 0, mutex discipline incl. call sites of must-hold helpers, empty checksum, aggregation guards and overridden-block marking, block arithmetic, WAL overlay ownership/lookup order, the two verification points. Does NOT decide numeric equality with CRC64 over real bytes.", "DESIGN.md section 4 C04",
   "who-may-write tables, CFG after/guarded rules, OnlyGuards (effect unconditional), mutex-held rule, origin rendering over go/ssa")
+CLAIMED["C10"] = ("other", "The snapshot/export lock protocol as a typestate over the twelve guards, folded along every feasible path: capture (position, size, page size, WAL overlay) under SHARED and, in WAL mode, the exclusive WRITE lock, nothing re-read after its release; every page read under SHARED and all five READ locks (export: plus CKPT, RECOVER); CKPT/RECOVER released only after the READ locks are held; deferred full release; pages read through the copied overlay; snapshot self-check; checkpoint gate. Does NOT explore the schedule interleavings themselves.", "DESIGN.md section 4 C10, section 3.4",
+  "per-path lock-set typestate over go/ssa paths (path enumeration, phi resolution), CFG no-path rules, origin rendering")
 REASONS = {}
 def main():
     checks=[]
